@@ -4,7 +4,7 @@
 From Coq Require Import List Arith Lia Bool Reals Lra.
 From TLV Require Import Base.Shape Base.PyList Base.Tensor Base.Ops Model.Metrics Model.MetricsPermute Proofs.MetricsProofs
   Proofs.MetricsProofs10 Proofs.MetricsProofs18.
-From TLV Require Model.Transforms.
+From TLV Require Model.Transforms Proofs.TransformsProofsR.
 Import ListNotations.
 Local Open Scope R_scope.
 
@@ -59,4 +59,18 @@ Proof.
     destruct (Hlen k Hk) as (E1 & E2).
     apply (compared_mode_rescaled ref t k r); try lia; try assumption. intros _ i Hi. now apply Hw. }
   split; [exact M|]. intros i j Hi Hj. now apply cong_all_rescaled.
+Qed.
+
+(* non-vacuity: the hypotheses of normalisation_keeps_congruence_matrix hold for weights [2], factor (3, 4)^T, recorded norm 10 *)
+Definition exr : ptensor R := mkPT [2] [[[3]; [4]]] [[10]] [[1]].
+Lemma nz10 : Transforms.nz1 Rops 10 = 10.
+Proof. rewrite TransformsProofsR.nz1_R. destruct (Req_EM_T 10 0); lra. Qed.
+Lemma cmp_exr : compared Rops true exr = [[[3 * 2 / 10]; [4 * 2 / 10]]].
+Proof. unfold compared, Transforms.cp_normalize, exr. cbn. rewrite nz10. reflexivity. Qed.
+Example ex_hyps : 
+  (forall k, (k < 1)%nat -> mode_ok 1 (mode_at (pfs exr) (pfs exr) [[5]] [[5]] k) /\
+                            mode_ok 1 (mode_at (compared Rops true exr) (compared Rops true exr) (pcong exr) (pcong exr) k)).
+Proof.
+  intros k Hk. assert (k = 0)%nat by lia. subst k. rewrite cmp_exr. unfold mode_at, mode_ok, norms_valid. cbn [nth pfs pcong exr mA mB nA nB ncols nrows length].
+  repeat split; try reflexivity; try lia; (destruct j as [|j]; [|lia]); cbn; lra.
 Qed.
